@@ -208,3 +208,44 @@ def _fmt(m, describe, args, result=None):
         return describe(m, args, result)
     except Exception as e:  # pragma: no cover
         return {"z3_model": str(m)[:2000], "describe_error": repr(e)}
+
+
+def verify_cases(index, theory, qname, cases, use_contracts=(), contracts=None, loop_specs=None, report=None, timeout_ms=None):
+    """Generic obligations: each case is a dict(name, pre=[...], thunk(ex)->value, post(ex, value)->[(name, Bool)],
+    allowed_raise(exc_name)->Bool (optional), describe (optional))."""
+    report = report or Report()
+    frec = report.functions.setdefault(qname, {"hash": None, "mode": "law proved from callee contracts", "paths": 0, "cases": 0})
+    for case in cases:
+        ex = Exec(index, theory, contracts=contracts or {}, use_contracts=use_contracts, loop_specs=loop_specs or {})
+        pre = list(case.get("pre", []))
+        st, secs, be, _ = solve(pre, z3.BoolVal(False), timeout_ms=5000, want_model=False, use_cvc5=False)
+        report.add(f"{qname}#cover.{case['name']}", "unsat" if st in ("sat", "unknown") else "sat", secs, be,
+                   detail=None if st != "unsat" else "hypotheses unsatisfiable (vacuous)")
+        try:
+            outcomes, obligations = ex.explore(case["thunk"], pre)
+        except OutsideSubset as e:
+            report.add(f"{qname}#subset.{case['name']}", "unknown", 0.0, "engine", detail=f"outside subset: {e}")
+            continue
+        frec["paths"] += len(outcomes)
+        frec["cases"] += 1
+        describe = case.get("describe")
+        for ob in obligations:
+            st, secs, be, m = solve(ob.pc, ob.cond, timeout_ms)
+            nm = ob.name if "#" in ob.name else f"{qname}#{ob.name}"
+            report.add(nm, st, secs, be, model=_fmt(m, describe, case.get("args")) if st == "sat" else None,
+                       detail={"case": case["name"], **(ob.info or {})} if st != "unsat" else None)
+        for oc in outcomes:
+            ex1 = Exec(index, theory)
+            ex1.pc, ex1.obls, ex1.guards = list(oc.pc), [], []
+            if oc.kind == "raise":
+                ar = case.get("allowed_raise")
+                allowed = ar(oc.value.cls_name) if ar else z3.BoolVal(False)
+                st, secs, be, m = solve(oc.pc, allowed, timeout_ms)
+                report.add(f"{qname}#raises.{oc.value.cls_name}", st, secs, be, model=_fmt(m, describe, case.get("args")) if st == "sat" else None,
+                           detail={"case": case["name"], "raised": oc.value.cls_name, "msg": oc.value.msg} if st != "unsat" else None)
+                continue
+            for nm, cl in case["post"](ex1, oc.value):
+                st, secs, be, m = solve(oc.pc, cl, timeout_ms)
+                report.add(f"{qname}#{nm}", st, secs, be, model=_fmt(m, describe, case.get("args"), oc.value) if st == "sat" else None,
+                           detail={"case": case["name"]} if st != "unsat" else None)
+    return report
